@@ -22,7 +22,11 @@ checks_for() {
     *)                   echo "C01 C02";;
   esac
 }
-grep -a "SURVIVES-TESTS" mutants/phaseA.tsv > /var/tmp/mutB.todo
+# order: the files in which a surviving mutant is most likely to matter first
+: > /var/tmp/mutB.todo
+for f in url/searchparams.go url/url.go url/path.go url/inputstring.go url/hostparser.go url/parser.go url/parseroptions.go url/errorhandler.go canonicalizer/ errors/ url/codesets.go; do
+  grep -a "SURVIVES-TESTS" mutants/phaseA.tsv | awk -F'\t' -v f="$f" 'index($2,f)==1' >> /var/tmp/mutB.todo
+done
 for j in $(seq 0 $((W-1))); do
  (
   wt=/var/tmp/mutB.$j; rm -rf $wt; git -C /repo worktree add -q --detach $wt HEAD || exit 2
